@@ -714,6 +714,66 @@ def run_undefined(ctx, runner, cases, tag):
     return len(und)
 
 
+def run_casect(ctx, runner, cases, tag, charsigned):
+    """case labels under controlling expressions of every integer type: the ladder constant is the case constant
+    converted to the PROMOTED controlling type (6.8.4.2p5); labels are duplicates iff equal after that conversion.
+    Expected values and the duplicate verdict come from TLC (EmitCT); gcc and clang audit both."""
+    if not cases:
+        return
+    srcs, owner, seen = [], [], set()
+    for k, c in enumerate(cases):
+        c["i"] = k
+        T, A, B = CT[c["ct"]], render(c["e"]), render(c["e2"])
+        if (c["ct"], A) not in seen:
+            seen.add((c["ct"], A))
+            srcs.append("int f%d(%s x) { switch (x) { case %s: return 1; } return 0; }\n" % (k, T, A))
+            owner.append((c, "single"))
+        srcs.append("int d%d(%s x) { switch (x) { case %s: return 1; case %s: return 2; } return 0; }\n" % (k, T, A, B))
+        owner.append((c, "pair"))
+    # audit of the spec
+    audit_lines = []
+    for c, what in owner:
+        PT, A, B = CT[c["pct"]], render(c["e"]), render(c["e2"])
+        if what == "single":
+            audit_lines.append("_Static_assert((%s)(%s) == %s, \"v\");" % (PT, A, int_literal(c["pct"], as_int(c["pct"], c["s"]["v"]))))
+        else:
+            audit_lines.append("int d%d(%s x) { switch (x) { case %s: return 1; case %s: return 2; } return 0; }" % (c["i"], CT[c["ct"]], A, B))
+    src = ctx.path("audit_casect_%s.c" % tag)
+    with open(src, "w") as f:
+        f.write("\n".join(audit_lines) + "\n")
+    sc = "-fsigned-char" if charsigned else "-funsigned-char"
+    for name, cmd in (("gcc", ["gcc", "-std=c11", "-fsyntax-only", "-w", "-fmax-errors=0", sc, src]),
+                      ("clang", ["clang", "-std=c11", "-fsyntax-only", "-w", "-ferror-limit=0", "--target=x86_64-linux-gnu", sc, src])):
+        p = subprocess.run(cmd, stdout=subprocess.PIPE, stderr=subprocess.STDOUT, text=True, timeout=300)
+        errs = {}
+        for ln in p.stdout.split("\n"):
+            m = re.match(r".*?:(\d+):\d+: error: (.*)", ln)
+            if m:
+                errs.setdefault(int(m.group(1)), m.group(2))
+        for n, (c, what) in enumerate(owner):
+            msg = errs.get(n + 1)
+            want = what == "pair" and c["dup"]
+            if (msg is not None) != want or (msg is not None and "duplicate case" not in msg):
+                raise vlib.MachineryError("SPEC-AUDIT casect: %s on `%s`: %s (spec: %s)" % (name, audit_lines[n], msg, "duplicate" if want else "accepted"))
+        ctx.cov.setdefault("audit", {})["%s_casect_%s" % (name, tag)] = {"asserts": len(owner), "agreed": len(owner)}
+    res = compile_many(runner, srcs)
+    for (c, what), src1, (rc, mod, err) in zip(owner, srcs, res):
+        ctx.count("%s|case_ct|%s|%s" % (tag, what, src1.strip()), nontrivial=True)
+        if what == "single":
+            exp = ("case", 8 * c["ptz"], u64(c["s"]["v"]) & ((1 << (8 * c["ptz"])) - 1))
+            obs = observe("case", c, rc, mod, err)
+        else:
+            exp = REJECT if c["dup"] else ("accept",)
+            obs = CRASH if rc < 0 and rc != -999 else ("hang",) if rc == -999 else REJECT if rc != 0 else ("accept",)
+        if obs != exp:
+            ctx.violation("fold:case_ct:%s:%s" % (c["ct"], what),
+                          "`%s`: the case constant converted to the promoted controlling type %s: expected %s observed %s"
+                          % (src1.strip(), CT[c["pct"]], exp, obs),
+                          {"context": "case_ct", "source": src1, "target": tag, "expected": list(exp), "observed": list(obs)})
+    ctx.validated(len(cases))
+    ctx.cov.setdefault("flowA", {}).setdefault("casect_" + tag, len(owner))
+
+
 # ---------------------------------------------------------------------------------------------
 # run-time half
 def run_runtime(ctx, objdir, cases, tag, per=150):
@@ -967,8 +1027,12 @@ def flow_a(ctx, objdir, tracedir, cfg, charsigned, targets, runtime=True):
         raise vlib.MachineryError("case generation failed (%s):\n%s" % (cfg, r.out[-3000:]))
     cases = []
     seen = set()
+    ctcases = []
     for ln in raw:
         c = json.loads(ln)
+        if c["f"] == "casect":
+            ctcases.append(c)
+            continue
         k = vlib.canon(c["e"])
         if k in seen:
             continue
@@ -984,6 +1048,7 @@ def flow_a(ctx, objdir, tracedir, cfg, charsigned, targets, runtime=True):
         with Timer(ctx, "flowA_contexts"):
             run_cases(ctx, runner, cases, tg)
             run_undefined(ctx, runner, cases, tg)
+            run_casect(ctx, runner, ctcases, tg, charsigned)
         traces += runner.traces
         ctx.cov["flowA"][cfg]["compilations_" + tg] = runner.nrun
     if runtime:
